@@ -196,6 +196,18 @@ func c19Outage(w *W) {
 		}()
 	}
 	defer close(samplerStop)
+	// in part of the runs the process's standard error - where the library reports failed rotations - is a pipe that nobody reads
+	// (a supervisor that stopped collecting): the few reports of an outage fit into the pipe; logging goes on
+	stderrPiped := false
+	if !async && w.Spec.Shard%3 == 1 {
+		if pr, pw, err := os.Pipe(); err == nil {
+			oldErr := os.Stderr
+			os.Stderr = pw
+			stderrPiped = true
+			cs["stderr"] = "a pipe nobody reads"
+			defer func() { os.Stderr = oldErr; pw.Close(); pr.Close() }()
+		}
+	}
 	b0 := time.Now().Truncate(interval) // boundary #0 = start of the current interval; #k = b0 + k s
 	at := func(k, offMs int) time.Time {
 		return b0.Add(time.Duration(k)*interval + time.Duration(offMs)*time.Millisecond)
@@ -323,7 +335,40 @@ func c19Outage(w *W) {
 			w.Violate("C19:stop-panic", fmt.Sprintf("Destroy panicked: %v", pv), cs)
 		}
 	} else {
-		wg.Wait()
+		joined := make(chan struct{})
+		go func() { wg.Wait(); close(joined) }()
+		select {
+		case <-joined:
+		case <-time.After(time.Until(stopAt) + 30*time.Second):
+			// the writers should have ended half a minute ago
+			k, gr := stuckInLibrary("c19Outage")
+			if k == "" {
+				// parked in the network poller inside the library? The log target here is a regular file (writes to it never
+				// wait in the poller), so this is a wait on another descriptor - the report channel - in two dumps 300 ms apart
+				ioWait := func() string {
+					for _, g := range strings.Split(goroutineDump(), "\n\n") {
+						hdr, _, _ := strings.Cut(g, "\n")
+						if strings.Contains(g, "c19Outage") && strings.Contains(hdr, "[IO wait") && libFrameRe.MatchString(g) {
+							return g
+						}
+					}
+					return ""
+				}
+				if g1 := ioWait(); g1 != "" {
+					time.Sleep(300 * time.Millisecond)
+					if g2 := ioWait(); g2 != "" {
+						k, gr = "io-wait", g2
+					}
+				}
+			}
+			if k != "" {
+				w.Violate("C19:log-call-blocked:"+k, fmt.Sprintf("[%s] 30 s after the workload should have ended a Write is still inside the library (%s; standard error is a pipe nobody reads: %v):\n%s", pl.Name, k, stderrPiped, trunc(gr, 1500)), cs)
+			} else {
+				w.Inconclusive("[" + pl.Name + "] writers did not finish within the watchdog")
+			}
+			w.flush()
+			os.Exit(0)
+		}
 		<-ctlDone
 		if pv, _ := catch(ap.Stop); pv != nil {
 			w.Violate("C19:stop-panic", fmt.Sprintf("Stop panicked: %v", pv), cs)
@@ -855,7 +900,7 @@ func c19Worker(w *W) {
 func init() {
 	register(&Prop{
 		ID: "C19", Level: "fault_enumeration", MinDistinct: 10, Worker: c19Worker,
-		Rule: "faults: (a) the log directory of a running rolling appender (1 s interval) is renamed away and back - or replaced by a regular file - at 12 enumerated placements relative to real boundaries, plus 3 placements in which the process runs out of descriptors instead (EMFILE on create), (covering one, two, three or eleven (thorough: forty) boundaries, starting right after a successful rotation, restored 40 ms before / after a boundary, two separate outages, back-to-back outages, outage at the first boundary, outage inside one interval only; thorough adds 12 offset sweeps) x {1,2,4} writers issuing self-describing records with call stamps, the target written in three spellings of (fileDir, fileName) - plain, empty fileDir with the whole path in fileName, path split in the middle -, several writers held together (3 ms) at the interval check of each boundary; a call during which another writer completes 300 calls and a boundary passes counts as blocked if goroutine dumps taken every 100 ms show it parked inside the library (sleep, channel, lock - not a system call) in four consecutive samples while nobody else is at work inside the library; " +
+		Rule: "faults: (a) the log directory of a running rolling appender (1 s interval) is renamed away and back - or replaced by a regular file - at 12 enumerated placements relative to real boundaries, plus 3 placements in which the process runs out of descriptors instead (EMFILE on create), (covering one, two, three or eleven (thorough: forty) boundaries, starting right after a successful rotation, restored 40 ms before / after a boundary, two separate outages, back-to-back outages, outage at the first boundary, outage inside one interval only; thorough adds 12 offset sweeps) x {1,2,4} writers issuing self-describing records with call stamps, the target written in three spellings of (fileDir, fileName) - plain, empty fileDir with the whole path in fileName, path split in the middle -, several writers held together (3 ms) at the interval check of each boundary; in a third of the runs standard error is a pipe nobody reads; a call during which another writer completes 300 calls and a boundary passes counts as blocked if goroutine dumps taken every 100 ms show it parked inside the library (sleep, channel, lock - not a system call) in four consecutive samples while nobody else is at work inside the library; " +
 			"oracle: no panic, every record present whole exactly once after the restore, every boundary lying outside all outages has a file created in its interval (creation retried), a sequential writer's post-boundary writes are not in an older file. (b) 14 sink-failure scenarios (one of them: the retention scan runs while the directory entries it lists are being removed): File/RollingFile appenders never started, after Stop, on /dev/full, with a missing directory at Start and at rotation, directory removed while open; console stream replaced by an erroring writer, a short writer, a closed file, a read-only file - Append and Write must return without panic or block. " +
 			"(c) the log directory is moved aside and a fresh one created under the same name (or the symbolic link that is the configured directory is re-pointed) while the appender runs: nothing lost, and from the next boundary on the files appear under the configured name. Non-trivial/distinct = distinct (placement, writers) runs + sink scenarios that held.",
 		Assumptions: []string{"the outage is produced by rename(2), so descriptors already open stay valid (that is what 'keeps writing to the file it already has' relies on)", "boundaries closer than 30 ms to an outage edge are not judged for retry"},
